@@ -1045,9 +1045,9 @@ def propEnv : Env PV :=
   { encErr := fun _ _ => none, managedErr := fun _ => none, ofSeq := fun _ => .other 0,
     validErr := fun _ => true, textFix := fixRepaired }
 
-/-- C17-state: object 0 exported, `v = 'hello'` -/
+/-- C17-state: `v = 'hello'` assigned, then object 0 exported (attached) -/
 def propSt : Props.St :=
-  (Props.runFrom Props.Cfg.repaired propWorld Props.St.init [.export 0, .assign 0 "v".toList (.str "hello".toList)])
+  (Props.runFrom Props.Cfg.repaired propWorld Props.St.init [.assign 0 "v".toList (.str "hello".toList), .export 0])
 
 def getCall (p : String) : Call PV :=
   { path := "/p".toList, iface := some propsName, member := getMember, sig := some "ss".toList,
@@ -1085,10 +1085,10 @@ example :
 Properties.Get with UnknownObject, while C17's own `step` - whose `attached` is never undone - would still
 answer with the value. -/
 example :
-    ((run Example.propEnv Example.propExports
+    List.filterMap (fun e => match e.2 with | .sent (.err n _ _ _) => some n | _ => none)
+      (run Example.propEnv Example.propExports
         [.unexportObj "/p".toList,
-         .call (Example.getCall "v") (libBehav Example.propLib Example.propSt (Example.getCall "v") fun _ => .deferred)]
-      |>.2).filterMap (fun e => match e.2 with | .sent (.err n _ _ _) => some n | _ => none)) =
+         .call (Example.getCall "v") (libBehav Example.propLib Example.propSt (Example.getCall "v") fun _ => .deferred)]).2 =
       ["org.freedesktop.DBus.Error.UnknownObject".toList] ∧
     (Props.step Props.Cfg.repaired Example.propWorld Example.propSt (.get 0 "org.p".toList "v".toList)).2 =
       [.retV ['s'] (.str "hello".toList)] := by
